@@ -39,6 +39,7 @@ KDELREF = "delete/reference-update-not-marked-modified"
 KMOVAFF = "move/codes-without-target-affixes-unflushable"
 KREFREPR = "metaflush+reopen/reference-name-ending-in-dot-r-i-m-a"
 KAMB = "dirfile_standards/number-like-scalar-code-needs-version-8"
+KUNCLEAN = "rename/raw-field-in-compressed-fragment-unclean-db"
 
 
 def hx(b):
@@ -143,15 +144,20 @@ class Gen:
 
 
 def numlike(b):
-    """could _GD_TokToNum read this name as a number?"""
-    t = b.decode("latin1").strip()
-    for f in (float, lambda x: int(x, 0)):
+    """could _GD_TokToNum read this name as a number? (over-approximation of the model's looks_numeric)"""
+    t = b.decode("latin1").lstrip(" \t\n\v\f\r")
+    t = t.split(";")[0]
+    if t == "":
+        return True
+    if re.fullmatch(r"[+-]?(inf|infinity|nan(\([0-9a-z_]*\))?)", t, re.I):
+        return True
+    for f in (float, lambda x: int(x, 0), float.fromhex):
         try:
-            f(t.split(";")[0] if t else t)
+            f(t)
             return True
-        except ValueError:
+        except (ValueError, OverflowError):
             pass
-    return t == ""
+    return False
 
 
 def canon_sv(v):
@@ -996,6 +1002,7 @@ def main():
             (KINH, ["OPEN 0", "INC 0 %s - - -" % hx(b"sub"), "FRAGATTR 0 4 -1 0 -1"]),
             (KMOVREF, ["OPEN 0", "INC 0 %s - - %s" % (hx(b"sub"), hx(b"_S")), "ADD RAW 0 - %s 088 1" % hx(b"d"), "MFLUSH", "MOVE %s 1 2" % hx(b"d")]),
             (KNZI, ["OPEN 0", "ADD POLYNOM 0 - %s %s 1 1 %016x 8000000000000000 %016x 0" % (hx(b"p"), hx(b"in"), dbits(1.5), dbits(2.0))]),
+            (KUNCLEAN, ["OPEN 0", "FRAGATTR 0 0 -1 0 4000000", "ADD RAW 0 - %s 088 1" % hx(b"r"), "MFLUSH", "RENAME %s %s 0" % (hx(b"r"), hx(b"x"))]),
             (KREFREPR, ["OPEN 0", "INC 0 %s %s - -" % (hx(b"sub"), hx(b"ns")), "ADD RAW 1 - %s 088 1" % hx(b"ns.i")]),
             (KAMB, ["OPEN 0", "ADD CONST 0 - %s 001 5 0" % hx(b"1e3"), "ADD PHASE 0 - %s %s 0 S 0 %s -1" % (hx(b"ph"), hx(b"in"), hx(b"1e3")), "STD 6"]),
             (KMOVAFF, ["OPEN 0", "INC 0 %s - - %s" % (hx(b"sub"), hx(b"_S")), "ADD CONST 0 - %s 001 5 0" % hx(b"k"),
@@ -1214,13 +1221,17 @@ def main():
     kinds_seen = {}
     for c in allc:
         r_ = res[c.cid]
-        forced = getattr(c, "wkey", None) if getattr(c, "wkey", None) in (KINC, KNSV, KREPRZ, KINH, KMOVREF, KDEREF, KDELREF, KMOVAFF, KREFREPR, KAMB, KNZI) else None
+        forced = getattr(c, "wkey", None) if getattr(c, "wkey", None) in (KINC, KNSV, KREPRZ, KINH, KMOVREF, KDEREF, KDELREF, KMOVAFF, KREFREPR, KAMB, KNZI, KUNCLEAN) else None
 
         def viol(key, desc, rep, found=True, forced=forced):
             return chk.violation(forced if forced else key, desc, rep, found=(found or bool(forced)))
         replay = {"kind": "case", "commands": c.cmds + ["FLUSH", "END"],
                   "how": "feed the commands to harness/C07/rt.c <scratch-dir> (built by vlib.build_harness); compare SNAP A with SNAP B/C"}
         fl = [o for o in r_["ops"]]
+        if any(o[1:] == ["-27", "-27"] for o in fl):
+            viol(KUNCLEAN, "gd_rename/gd_move of a RAW field of a gzip/lzma-encoded fragment whose data file was only created (never written) fails with "
+                 "GD_E_UNCLEAN_DB and leaves the DIRFILE invalid: every later call, gd_metaflush included, returns GD_E_BAD_DIRFILE (case %s)" % c.cid, replay)
+            continue
         if not hasattr(c, "A") and any(x.startswith("MOVE ") for x in c.cmds) and fl and fl[-1][1:] == ["-6", "-6"]:
             viol(KMOVAFF if facts.get("STRIP_GUARD") else KMOVREF,
                  "after gd_move gd_metaflush fails with GD_E_INTERNAL_ERROR: a field code (the stale /REFERENCE name, or an input/scalar code of the moved field) does not carry the fragment's affixes, case %s" % c.cid, replay)
